@@ -110,6 +110,15 @@ CHECKS = {
         note=TB + "C07 (partial): statistical independence of distinct threefry keys and per-site distributional correctness are the PRNG/TFP contract (trusted, calibrated tests only).",
         technique="Lean 4 proof (prefix-freeness invariant of the threaded key) + differential correspondence",
         design="§3 C07"),
+    "C14": dict(
+        text="Partial. Lean theorems about a decision model of JAX+pjax (placements of every depth): in the specification variant every site under a "
+             "compiling construct raises the lowering (or batch) error, plain vmap raises, seed yields a function of the key or raises; the code as it "
+             "is agrees with the specification on all placements without grad and without unbatched plain vmap; proved counterexamples for those two. "
+             "Tie: every placement up to depth 1 + sampled depth 2-3 (quick) / exhaustively to depth 3 (thorough), plain and ADEV site, executed on "
+             "real JAX with and without seed and compared with the model and with the property's requirement.",
+        note=TB + "C14 (partial): the model's rules are assumptions about JAX's tracing/lowering, re-validated by the enumeration only up to depth 3; two open known findings (grad inlines the sampler; unbatched plain vmap replicates).",
+        technique="Lean 4 proof over a decision model + exhaustive bounded differential enumeration against real JAX",
+        design="§3 C14"),
 }
 
 NOT_YET = "check not built yet in this session (planned, see DESIGN.md §3/§6); not claimed"
